@@ -4,7 +4,7 @@ M : spec/MC_C14.tla - TLC runs the transcription FindImpl of the element finders
     test, fallback to all cells, raise; simplex split + modulo; 1-D digitize) on every lattice / half-lattice
     point of the universe meshes (graded ones exercise the fallback) and checks FindOK / RaisesOutside /
     PointsOfTheDomainAreFound.
-    MC_C14_linecomp.cfg is the named deviation of DESIGN section 7 #16 (expected to be violated; known finding).
+    MC_C14_line_prerepair.cfg is the regression model of the 1-D finder before fix 6d9cf06 (must be refuted).
 R : the (mesh, batch of points) pairs enumerated by TLC are executed on the real `mesh.element_finder()`.
 V : finder results on generated meshes of all first-order classes (graded, anisotropic, sheared, non-convex
     domains, random integer Delaunay, several 1-D components) at vertices, facet points, interior points,
@@ -101,10 +101,17 @@ ROUNDOFF_REGRESSIONS = [
 
 def find_recipe(kind, p, t, rng, fam, nsingle=30, nbatch=6, extra=()):
     ins, oth = query_points(kind, p, t, rng)
-    ins = [list(q) for q in extra] + ins
+    if kind == 'line':
+        # left / right ends of every component and of every cell, and the midpoints between consecutive vertices
+        # (inside a cell, or in a GAP between two components, where the call must raise)
+        xs = sorted(int(round(v * SCALE)) for v in np.asarray(p)[0])
+        extra = [list(q) for q in extra] + [[x] for x in xs]
+        mids = [[(a + b) // 2] for a, b in zip(xs[:-1], xs[1:])]
+        oth = mids + [q for q in oth if q not in mids]
     pts = ins + oth
     order = rng.permutation(len(pts))
-    calls = [[list(q)] for q in extra] + [[pts[j]] for j in order[:nsingle]]
+    calls = [[list(q)] for q in extra] + [[q] for q in (oth[:12] if kind == 'line' else [])] \
+        + [[pts[j]] for j in order[:nsingle]]
     for _ in range(nbatch):
         n = int(rng.integers(2, 12))
         calls.append([ins[j] for j in rng.integers(0, len(ins), n)])          # with repetition, any order
@@ -724,9 +731,13 @@ def model(ctx):
     out_file = os.path.join(ctx.scratch, 'c14_universe.json')
     cfg = 'MC_C14_thorough.cfg' if ctx.tier == 'thorough' else 'MC_C14.cfg'
     ctx.model_must_hold('MC_C14', cfg, env={'OUT_FILE': out_file}, timeout=3000, workers=8, label='FindImpl => FindOK')
-    # named deviation (DESIGN section 7 #16): expected to be violated, matched by a known finding
-    ctx.model_must_hold('MC_C14', 'MC_C14_linecomp.cfg', env={'OUT_FILE': ''}, timeout=600, workers=2,
-                        label='named deviation LineFinderComponents')
+    # regression model (DESIGN section 7 #16): the 1-D finder before fix 6d9cf06 must be refuted by TLC on meshes
+    # with several components; the current algorithm is part of the main configuration
+    old = ctx.tlc_model('MC_C14', 'MC_C14_line_prerepair.cfg', env={'OUT_FILE': ''}, timeout=600, workers=2,
+                        label='regression model: 1-D element finder before fix 6d9cf06')
+    ctx.notes['pre_repair_line_finder_refuted_by_tlc'] = bool(old['violated'])
+    if not old['violated']:
+        raise MachineryError('MC_C14 does not refute the pre-repair 1-D element finder')
     return out_file
 
 
